@@ -5,6 +5,7 @@ import LP.Driver.FSet
 import LP.Driver.Containers
 import LP.Driver.Poly
 import LP.Driver.Refs
+import LP.Driver.Roots
 import Std.Data.HashMap
 open LP LP.Driver
 
@@ -35,6 +36,7 @@ def checkLine (line : String) : String × String × Verdict :=
         | "ord" => checkOrd op args r
         | "gcd" => checkGcd op args r
         | "res" => checkRes op args r
+        | "roots" => checkRoots op args r
         | "ugcd" => checkUGcd op args r
         | "refs" => checkRefs args r
         | _ => Verdict.skip s!"unknown family {fam}"
